@@ -730,6 +730,26 @@ def _surrogate_stream(ctx: Ctx) -> None:
             ctx.disagree("utf16", {"text": t}, enc_text(units(t)), m)
 
 
+MALFORMED = ["", "x", "u,1", "u,1,c,1,t,q", "u,1,c,1,t,h,65,0,n,extra", "u,1,c,1,t,s,0,1,r,97,0,n",
+             "u,1,c,1,t,y,3,n", "u,1,c,1,t,h,65,0,q,0,2,1", "u,0,", "u,1,c,1,t,h,1114112,0,n"]
+
+
+def _malformed_stream(ctx: Ctx) -> None:
+    """Both sides must reject malformed wire text (the driver never answers with a default)."""
+    mouts = ctx.model([f"fix {w}" for w in MALFORMED])
+    for w, m in zip(MALFORMED, mouts):
+        got = impl_fix_tree(w)
+        ctx.count(("malformed", w), nontrivial=False, stream="malformed")
+        ctx.traces_validated += 1
+        impl_rejects = got.startswith("unbuildable")
+        # `min > max` and code points above U+10FFFF are rejected by the Python constructors only;
+        # the Lean types have no such invariant (Types.lean), so the driver may answer for them.
+        only_python = w in ("u,1,c,1,t,h,65,0,q,0,2,1", "u,1,c,1,t,h,1114112,0,n")
+        if (m == "bad-op") != impl_rejects and not only_python:
+            ctx.disagree("malformed", {"wire": w}, got, m)
+        ctx.hit("malformed:" + ("rejected-by-both" if m == "bad-op" and impl_rejects else "python-only"))
+
+
 def _run(ctx: Ctx, with_model: bool) -> None:
     batch = list(trees(ctx))
     n_strings = 40 if ctx.tier == "quick" else 60
@@ -750,10 +770,15 @@ def _run(ctx: Ctx, with_model: bool) -> None:
             ctx.traces_validated += 1
             if got != mout[k] and not got.startswith("unbuildable"):
                 ctx.disagree("fix-tree", {"wire": w}, got, mout[k])
-            if hyp[k] == "1 1":
+            ndc, nsl, wf = hyp[k].split()
+            if ndc == "1" and nsl == "1":
                 ctx.hit("hyp:NoDotNoComplement+NoSurrogateLiterals")
             else:
-                ctx.hit("hyp:excluded-region(" + hyp[k] + ")")
+                ctx.hit(f"hyp:excluded-region(ndc={ndc},nsl={nsl})")
+            ctx.hit("hyp:FixWF" if wf == "1" else "hyp:not-FixWF")
+            if wf == "1" and not got.startswith("ok"):
+                # fix_never_crashes says the model cannot crash here; the real code did
+                ctx.disagree("fix-tree-wf", {"wire": w}, got, "ok (FixWF tree)")
         if k % 401 == 0:
             ctx.sample({"wire": w, "fix": got})
         # ---- render to text for the pattern-level stream and the oracle
@@ -815,6 +840,7 @@ def _run(ctx: Ctx, with_model: bool) -> None:
             # consistency of machinery: inside the hypotheses of fix_preserves_partial the oracle must agree
     if with_model:
         _surrogate_stream(ctx)
+        _malformed_stream(ctx)
 
 
 def correspond(ctx: Ctx) -> None:
